@@ -1786,7 +1786,11 @@ impl WriteTaskState {
         use either::Either;
 
         let LaneData { target, response } = response;
-        if let Some(remote_id) = target {
+        if matches!(target, Some(remote_id) if !write_tracker.has_remote(remote_id)) {
+            // The remote went away after it made the request: there is nothing to link or to count.
+            trace!(response = ?response, "Discarding response for a remote that is no longer attached.");
+            Either::Left(Writes::Zero)
+        } else if let Some(remote_id) = target {
             trace!(response = ?response, "Routing response to {}.", remote_id);
             links.count_single(id);
             let write = if !links.is_linked(remote_id, id) {
